@@ -139,9 +139,8 @@ Theorem C18_ms_pr_agree : forall n cs,
   ((exists q, sat_cons (ms_mip n cs) q) <-> (exists l, sat_cons (pro_mip n cs) l)).
 Proof. exact ms_pr_agree. Qed.
 
-(* the two-system PR form does NOT always agree (guard only in cs_after): finding C18-pr2-guard *)
-Theorem C18_ms_pr2_agree_refuted : ~ ms_pr2_agree_full.
-Proof. exact ms_pr2_agree_refuted. Qed.
+(* (the raw two-system builder is incomplete when cs_before lacks the guard: Complete.ms_pr2_agree_refuted;
+   the PR_2 entry points now pass the guard, see C18_ms_pr2_agree below) *)
 
 (* ---- the two-system PR form (PR_2 entry points), under the hypothesis that "before" carries the guard ---- *)
 Require Import PPLV.Term.CompletePR2.
@@ -174,3 +173,10 @@ Theorem C18_pr_original_space_exact : forall n cs q,
   sat_sys (pro_space n cs) q <->
   exists l, sat_cons (pro_all n cs) l /\ forall j, (j < n)%nat -> q j == pr_mu cs (length cs) l j.
 Proof. exact pro_space_exact. Qed.
+
+(* the PR_2 entry points (termination_templates.hh after fix-1-pr2-guard) agree with MS_2 on every closed pair:
+   G is the system they hand to the builder, pset_before /\ (exists x'. pset_after) *)
+Theorem C18_ms_pr2_agree : forall n B C G,
+  all_ge B -> all_ge C -> all_ge G -> dimc n B -> dimc n G -> dimc (n + n) C -> is_guard n B C G ->
+  ((exists q, sat_cons (ms_mip n (joint n B C)) q) <-> (exists u, sat_cons (pr_mip n G C) u)).
+Proof. exact ms_pr2_agree. Qed.
